@@ -194,9 +194,11 @@ func leaderHeartbeatRound(c *Ctx, id string) {
 			}
 			return avIface{isNil: true}
 		}
-		h := &Harness{Fn: body, Bools: bools, Quiet: quietLog, MaxSteps: 30000, Concrete: true,
+		calls := map[*State]map[string]int{}
+		h := &Harness{Fn: body, Bools: bools, Quiet: quietLog, MaxSteps: 60000, Concrete: true,
 			NoInline: map[string]bool{fname(remove): true},
-			Sequence: map[string][]bool{recvName + "." + running: {true, false}},
+			// two iterations: the second one must start from scratch (what failed in the first round answers in the second)
+			Sequence: map[string][]bool{recvName + "." + running: {true, true, false}},
 			Valid: func(st *State) bool {
 				// outcomes of calls that are never made do not multiply the states
 				if st.B(leaderSym+"==nil") && (st.B("leaderPingFails") || st.B("reconnectFails") || st.B("registerFails")) {
@@ -218,21 +220,27 @@ func leaderHeartbeatRound(c *Ctx, id string) {
 				return args[len(args)-1], calls, true
 			},
 			Oracle: func(st *State, name string, args []AV, res *types.Tuple) ([]AV, bool) {
+				// the declared outcome applies to the first call of each operation (round 1); later calls succeed
+				if calls[st] == nil {
+					calls[st] = map[string]int{}
+				}
+				first := calls[st][name] == 0
+				calls[st][name]++
 				switch {
 				case strings.HasSuffix(name, ".Range"):
 					return []AV{}, true
 				case name == leaderSym+".Client.Ping":
-					return []AV{errIf(st.B("leaderPingFails"), "errLeaderPing")}, true
+					return []AV{errIf(first && st.B("leaderPingFails"), "errLeaderPing")}, true
 				case name == leaderSym+".Client.Reconnect":
-					return []AV{errIf(st.B("reconnectFails"), "errReconnect")}, true
+					return []AV{errIf(first && st.B("reconnectFails"), "errReconnect")}, true
 				case name == leaderSym+".Client.Register":
-					return []AV{errIf(st.B("registerFails"), "errRegister")}, true
+					return []AV{errIf(first && st.B("registerFails"), "errRegister")}, true
 				case strings.HasSuffix(name, ".Client.Close"):
 					return []AV{avIface{isNil: true}}, true
 				case strings.HasPrefix(name, "follower") && strings.HasSuffix(name, ".Client.Ping"):
 					var i int
 					fmt.Sscanf(name, "follower%d.", &i)
-					return []AV{errIf(st.B(fmt.Sprintf("ping%dFails", i)), "errPing")}, true
+					return []AV{errIf(first && st.B(fmt.Sprintf("ping%dFails", i)), "errPing")}, true
 				}
 				return nil, false
 			}}
@@ -247,13 +255,14 @@ func leaderHeartbeatRound(c *Ctx, id string) {
 			if p, ok := final.(avPtr); ok && p.c == nil {
 				cleared = true
 			}
+			// (two rounds: a leader still known after the first round is pinged again in the second and answers)
 			switch {
 			case st.B(leaderSym + "==nil"):
 				if lp+rc+rg+cl != 0 {
 					return "calls through a leader that is not known"
 				}
 			case !st.B("leaderPingFails"):
-				if lp != 1 || rc+rg+cl != 0 || final != nil {
+				if lp != 2 || rc+rg+cl != 0 || final != nil {
 					return "a leader that answers its ping is not left alone: " + out.TraceString()
 				}
 			default:
@@ -261,10 +270,14 @@ func leaderHeartbeatRound(c *Ctx, id string) {
 				if !st.B("reconnectFails") {
 					wantRg = 1
 				}
-				if lp != 1 || rc != 1 || rg != wantRg {
-					return fmt.Sprintf("silent leader: %d pings, %d reconnects, %d registrations (expected 1, 1, %d)", lp, rc, rg, wantRg)
-				}
 				lost := st.B("reconnectFails") || st.B("registerFails")
+				wantLp := 2
+				if lost {
+					wantLp = 1
+				}
+				if lp != wantLp || rc != 1 || rg != wantRg {
+					return fmt.Sprintf("silent leader: %d pings, %d reconnects, %d registrations (expected %d, 1, %d)", lp, rc, rg, wantLp, wantRg)
+				}
 				if lost != cleared || (lost && cl != 1) || (!lost && cl != 0) {
 					return fmt.Sprintf("silent leader, re-contact failed=%v: leader cleared=%v, client closed %d times", lost, cleared, cl)
 				}
@@ -275,22 +288,22 @@ func leaderHeartbeatRound(c *Ctx, id string) {
 				rem[avString(e.Args[len(e.Args)-1])]++
 			}
 			for i := 0; i < kk; i++ {
-				if count(fmt.Sprintf("follower%d.Client.Ping", i)) != 1 {
-					return fmt.Sprintf("follower %d is pinged %d times in a round", i, count(fmt.Sprintf("follower%d.Client.Ping", i)))
+				if count(fmt.Sprintf("follower%d.Client.Ping", i)) != 2 {
+					return fmt.Sprintf("follower %d is pinged %d times in two rounds", i, count(fmt.Sprintf("follower%d.Client.Ping", i)))
 				}
 				want := 0
 				if st.B(fmt.Sprintf("ping%dFails", i)) {
 					want = 1
 				}
 				if rem[fmt.Sprintf("follower%d.Name", i)] != want {
-					return fmt.Sprintf("follower %d: ping failed=%v, removed %d times", i, want == 1, rem[fmt.Sprintf("follower%d.Name", i)])
+					return fmt.Sprintf("follower %d: ping failed in the first round=%v (answered in the second), removed %d times over the two rounds", i, want == 1, rem[fmt.Sprintf("follower%d.Name", i)])
 				}
 			}
 			if len(out.Effects(fname(remove))) > kk {
 				return "something that is not a registered follower is removed"
 			}
 			return ""
-		}, "leader: answers → untouched; silent → Reconnect, then Register; still failing → closed and forgotten. follower i removed ⇔ its ping failed; one ping each")
+		}, "leader: answers → untouched; silent → Reconnect, then Register; still failing → closed and forgotten. follower i removed ⇔ its ping failed, once (two rounds: the second starts from scratch)")
 	}
 }
 
